@@ -15,6 +15,7 @@ import (
 )
 
 type Gen struct {
+	inlinable    map[*ssa.Function]bool
 	prog         *ssa.Program
 	pkgs         []*packages.Package
 	spkgs        map[string]*ssa.Package
@@ -57,7 +58,7 @@ func newGen() *Gen {
 	g := &Gen{spkgs: map[string]*ssa.Package{}, typesPkg: map[string]*types.Package{}, pkgAlias: map[string]string{}, ti: newTypeInfo(), arrSort: map[string]string{},
 		contracts: map[string]*Contract{}, macros: map[string]*Macro{}, specFuncs: map[string]SpecSig{}, facts: map[string]bool{}, tracked: map[string]string{},
 		trustedUsed: map[string]bool{}, frames: map[*ssa.Function]*Frame{}, fnIDs: map[*ssa.Function]int{}, globIDs: map[*ssa.Global]int{},
-		closureOf: map[*ssa.MakeClosure]*ssa.Function{}, uncontracted: map[string]bool{}, funcs: map[string]*ssa.Function{}, reachCache: map[string]*Frame{}, findingObls: map[string]string{}, freshResCache: map[*ssa.Function]bool{}, dynBusy: map[*ssa.Parameter]bool{}, implCache: map[string][]*ssa.Function{}}
+		closureOf: map[*ssa.MakeClosure]*ssa.Function{}, uncontracted: map[string]bool{}, funcs: map[string]*ssa.Function{}, reachCache: map[string]*Frame{}, findingObls: map[string]string{}, freshResCache: map[*ssa.Function]bool{}, dynBusy: map[*ssa.Parameter]bool{}, implCache: map[string][]*ssa.Function{}, inlinable: map[*ssa.Function]bool{}}
 	g.initTrusted()
 	return g
 }
